@@ -112,6 +112,9 @@ func run(t *rapid.T, persistent bool) {
 	c.ClassIf(heldAcross > 0, "read_held_across_rotation")
 	c.ClassIf(h.FaultsInjected > 0, "faults_injected")
 	c.ClassIf(w.Flags["held_refresh_target_rotated_away"] > 0, "held_refresh_target_rotated_away")
+	c.ClassIf(h.RotationsDuringSlicing > 0, "rotation_during_composite_slicing")
+	c.ClassIf(h.OverlappedFindMissing > 0, "findmissing_waited_for_refresh_lock_during_uploads")
+	c.ClassIf(w.Flags["composite_refresh_target_rotated_away"] > 0, "composite_refresh_target_rotated_away")
 	c.ClassIf(capacityChecked, "capacity_checked")
 	c.ClassIf(quiesces > 0, "mid_history_quiescence")
 	c.ClassIf(cfg.Hierarchical, "hierarchical")
